@@ -45,7 +45,7 @@ def main():
         # demonstrations that build two tiny shared libraries from the same file and load them from the working directory
         pre = ("g++ -std=c++17 -shared -fPIC -DDEMO_LIB=1 %s -o /tmp/wt/confirm_demo_dir/libdemo_one.so && "
                "g++ -std=c++17 -shared -fPIC -DDEMO_LIB=2 %s -o /tmp/wt/confirm_demo_dir/libdemo_two.so && " % (demo, demo))
-    cc = pre + "g++ -std=c++17 -O1 -g -pthread -rdynamic -I%s/code/include -I%s/code/tests/rlbox %s -o %s -ldl" % (WT, WT, demo, exe)
+    cc = pre + "g++ -std=c++17 " + os.environ.get("DEMO_OPT", "-O1") + " -g -pthread -rdynamic -I%s/code/include -I%s/code/tests/rlbox %s -o %s -ldl" % (WT, WT, demo, exe)
     r = sh(cc + " 2>&1 | tail -5")
     r1 = sh("cd /tmp/wt/confirm_demo_dir && timeout 300 %s >/dev/null 2>&1; echo $?" % exe)
     with_rc = r1.stdout.strip().split("\n")[-1]
